@@ -657,7 +657,8 @@ mut("mag: raw instance count no longer made dimensionless before ceil", ["R-MAG"
       "        raw_nb_of_instances = (self.full_cumulative_storage_need / self.storage_capacity)")],
     ["Storage.update_nb_of_instances", "call-site"])
 mut("mag: timespan read without conversion in a builder", ["R-MAG"],
-    [(TB, "    nb_of_hours = int(timespan.to(u.hour).magnitude)\n    linear_growth", "    nb_of_hours = int(timespan.magnitude)\n    linear_growth")],
+    [(TB, "    nb_of_hours = int(timedelta(hours=timespan.to(u.hour).magnitude) / timedelta(hours=1))\n    linear_growth",
+      "    nb_of_hours = int(timedelta(hours=timespan.magnitude) / timedelta(hours=1))\n    linear_growth")],
     ["linear_growth_hourly_values"])
 mut("mag: on-premise maximum read before conversion", ["R-MAG"],
     [(SB, "            max_nb_of_instances = self.raw_nb_of_instances.max().ceil().to(u.dimensionless)",
@@ -1056,5 +1057,30 @@ twin("twin: sum of device powers written as an accumulation loop", ["R-PROV", "R
             total_devices_power += device.power
         total_devices_energy_spent_over_one_full_hour = total_devices_power * ExplainableQuantity(
             1 * u.hour, "one full hour")''')])
+
+# ------------------------------------------------------------------------------------------------ round-2 rules
+mut("trunc: hour count truncated again", ["R-TRUNC"],
+    [(TB, "    nb_of_hours = int(timedelta(hours=timespan.to(u.hour).magnitude) / timedelta(hours=1))\n    linear_growth",
+      "    nb_of_hours = int(timespan.to(u.hour).magnitude)\n    linear_growth")],
+    ["linear_growth_hourly_values"])
+twin("trunc: rounding spelled with round()", ["R-TRUNC"],
+     [(TB, "    nb_of_hours = int(timedelta(hours=timespan.to(u.hour).magnitude) / timedelta(hours=1))\n    linear_growth",
+       "    nb_of_hours = int(round(timespan.to(u.hour).magnitude, 6))\n    linear_growth")])
+mut("zerocut: empty shortcut on a sign test", ["R-ZEROCUT"],
+    [("core/usage/compute_nb_occurrences_in_parallel.py",
+      "    if isinstance(hourly_occurrences_starts, EmptyExplainableObject) or event_duration.magnitude == 0:",
+      "    if isinstance(hourly_occurrences_starts, EmptyExplainableObject) or event_duration.magnitude <= 0:")],
+    ["compute_nb_avg_hourly_occurrences"])
+twin("zerocut: zero test written as not-truthy magnitude", ["R-ZEROCUT"],
+     [("core/usage/compute_nb_occurrences_in_parallel.py",
+       "    if isinstance(hourly_occurrences_starts, EmptyExplainableObject) or event_duration.magnitude == 0:",
+       "    if isinstance(hourly_occurrences_starts, EmptyExplainableObject) or not event_duration.magnitude:")])
+mut("lastwins: entry overwritten per journey", ["R-LASTWINS"],
+    [(JOB, "        for up in self.usage_patterns:\n            self.hourly_occurrences_per_usage_pattern[up] = self.compute_hourly_occurrences_for_usage_pattern(up)",
+      "        for uj in self.usage_journeys:\n            self.last_usage_journey_name = uj.name\n        for up in self.usage_patterns:\n            self.hourly_occurrences_per_usage_pattern[up] = self.compute_hourly_occurrences_for_usage_pattern(up)")],
+    ["update_hourly_occurrences_per_usage_pattern"])
+twin("lastwins: per-element store keyed by the element", ["R-LASTWINS"],
+     [(JOB, "        for up in self.usage_patterns:\n            self.hourly_occurrences_per_usage_pattern[up] = self.compute_hourly_occurrences_for_usage_pattern(up)",
+       "        for up in self.usage_patterns:\n            occurrences = self.compute_hourly_occurrences_for_usage_pattern(up)\n            self.hourly_occurrences_per_usage_pattern[up] = occurrences")])
 
 VARIANTS = [v for v in V if v is not None]
